@@ -469,6 +469,32 @@ func (e *Env) c19Combinator(name string, run *ssa.Function) {
 	if !found {
 		obC.Unknown(core.FuncName(comb), "head-repetition loop `for i := 0; i < len(tail[k]); i++ { append(head element) }` not recognised")
 	}
+	// the tail rows that are repeated per head element are the rows of the already COMBINED tail (the recursion's
+	// result), not the raw input rows: a whole slice appended (`append(row, s...)`) must be rooted in the recursive call
+	obT := r.Ob("R2", name+":combine-tail", "the tail rows repeated for every head element are rows of the recursion's result, not of the raw inputs")
+	nT := 0
+	for _, n := range gc.Nodes {
+		if !n.IsBuiltin("append") || n.Kind == core.KAfter || len(n.Call.Args) < 2 {
+			continue
+		}
+		if varargElem(n.Call.Args[1]) != nil {
+			continue // a single element
+		}
+		if _, isSl := n.Call.Args[1].(*ssa.Slice); isSl {
+			if _, isAl := n.Call.Args[1].(*ssa.Slice).X.(*ssa.Alloc); isAl {
+				continue // a literal list
+			}
+		}
+		if len(iterLoops(gc, n)) == 0 {
+			continue
+		}
+		as := csy.InCtx(n.Ctx, n.Call.Args[1]).String()
+		nT++
+		obT.Check(strings.Contains(as, core.FuncName(comb)+"("), gc.Where(n), "appends rows of "+trunc(as, 80), "a whole row of "+trunc(as, 120)+" is appended per head element: that is a raw input stream, not the combined tail - with three or more ports the tail out-ports get fewer items than the head port and the tuples are misaligned")
+	}
+	if nT == 0 {
+		obT.OK(core.FuncName(comb), "no whole-slice append in the combine function (rows are built element by element)")
+	}
 }
 
 func (e *Env) c19Selector(run *ssa.Function) {
@@ -646,6 +672,30 @@ func (e *Env) c19Splitter(run *ssa.Function) {
 	}
 	if n0 == 0 {
 		ob2.Fail(core.FuncName(run), "no write of the scanned lines")
+	}
+	// a bufio.Reader instead of a Scanner: text that comes together with the end-of-input error (a last line without
+	// newline) is still written to a part; a line read without error is written before the next read
+	isWrite := func(m *core.Node) bool {
+		return m.Kind != core.KAfter && m.IsCallTo("(*os.File).WriteString", "(*os.File).Write", "(*bufio.Writer).WriteString", "io.WriteString", "fmt.Fprint", "fmt.Fprintf", "fmt.Fprintln")
+	}
+	for _, n := range g.Nodes {
+		if !n.IsCallTo("(*bufio.Reader).ReadString") || n.Kind == core.KAfter {
+			continue
+		}
+		obE := r.Ob("R4", "FileSplitter:data-with-EOF-written", "text that the reader returns together with its end-of-input error (a last line without newline) is still written to a part")
+		res := g.Run(core.Scenario{Start: n, Result: core.TupleAV(core.StrAV("x"), core.NonNilAV(core.ErrAny))})
+		if res.ReachesAvoiding(func(m *core.Node) bool { return m.Kind == core.KRootRet }, isWrite) != nil {
+			obE.Fail(g.Where(n), "when ReadString returns text together with an error (io.EOF after a last line without newline), Run can finish without writing that text: the parts no longer concatenate back to the input")
+		} else {
+			obE.OK(g.Where(n), "text returned with an error is written (or the error is fatal) on every path")
+		}
+		obL := r.Ob("R4", "FileSplitter:every-line-written", "a line the reader returns without error is written before the next read")
+		res2 := g.Run(core.Scenario{Start: n, Result: core.TupleAV(core.StrAV("x\n"), core.NilAV())})
+		if res2.ReachesAvoiding(func(m *core.Node) bool { return m.Kind == core.KRootRet || m == n }, isWrite) != nil {
+			obL.Fail(g.Where(n), "after ReadString returned a line without error, the next read or the end of Run can be reached without writing it")
+		} else {
+			obL.OK(g.Where(n), "a line read without error is written before the next read")
+		}
 	}
 }
 
